@@ -34,6 +34,10 @@ TRUSTED_BASE = [
 def sh(cmd, cwd=None, timeout=None, env=None, mem_gb=None):
     def pre():
         os.setsid()
+        try:
+            resource.setrlimit(resource.RLIMIT_STACK, (resource.RLIM_INFINITY, resource.RLIM_INFINITY))
+        except Exception:
+            pass
         if mem_gb:
             lim = int(mem_gb * (1 << 30))
             resource.setrlimit(resource.RLIMIT_AS, (lim, lim))
